@@ -35,3 +35,34 @@ package utils
 
 //@ func (*BufferPool).Put
 //@   property C20
+
+// ---- C20: a recycled Args never exposes a stale slot ------------------------
+// Reset only truncates a.args; the argsKV slots beyond len keep the previous
+// user's key/value slices. Every path that makes a slot visible again assigns
+// BOTH its key and its value (definite assignment, tracked by assigned()).
+
+//@ func decodeArgAppend
+//@   property C20
+//@   modifies allelems(type(byte))
+
+//@ func decodeArg
+//@   property C20
+//@   modifies allelems(type(byte))
+
+//@ func (*argsScanner).next
+//@   property C20
+//@   requires kv != nil
+//@   modifies kv.key, kv.value, s.b, allelems(type(byte))
+//@   ensures[definite-assign] result ==> assigned(kv.key) && assigned(kv.value)
+//@   loop 0: invariant[key-first] !isKey ==> assigned(kv.key)
+
+//@ func allocArg
+//@   property C20
+//@   modifies allelems(type(argsKV))
+//@   ensures[one-more] len(result.0) == len(h) + 1 && result.1 == addr(result.0[len(h)])
+
+//@ func appendArg
+//@   property C20
+//@   modifies allelems(type(argsKV)), allelems(type(byte))
+//@   ensures[one-more] len(result) == len(args) + 1
+//@   ensures[definite-assign] assigned(result[len(args)].key) && assigned(result[len(args)].value)
